@@ -97,6 +97,26 @@ def check_frame(acc: Acc, case):
     kname = kind if isinstance(kind, str) else "fixed"
     cmd = make_command(framing, kind, addr, reg, arg)
     fails = []
+    if framing == "tcp":
+        # the request has been on the wire (its transaction id is stamped and, in a long-running process, large); GoodWe firmware
+        # does not reliably echo MBAP fields - any transaction id / protocol id / length the device puts there is acceptable (D1)
+        cmd.request_bytes()
+        for (tx, proto, ln) in ((0, 0, None), (1, 0, None), (0xFFFF, 0, None), (None, 0, 6), (None, 1, None), (0x0102, 0xFFFF, 0)):
+            f2 = bytearray(frame)
+            if tx is not None:
+                f2[0:2] = tx.to_bytes(2, "big")
+            else:
+                f2[0:2] = cmd.request[0:2]
+            f2[2:4] = proto.to_bytes(2, "big")
+            if ln is not None:
+                f2[4:6] = ln.to_bytes(2, "big")
+            try:
+                ok2 = cmd.validator(bytes(f2))
+            except Exception as ex:
+                ok2 = ex
+            if ok2 is not True:
+                return [("C02|tcp|%s|refused|mbap-fields" % kname, "conforming answer with MBAP transaction id %s / protocol id %d / length %s refused (%r) while the "
+                         "request carries transaction id %s" % (f2[0:2].hex(), proto, ln, ok2, cmd.request[0:2].hex()), case)]
     try:
         ok = cmd.validator(frame)
     except Exception as ex:
